@@ -49,8 +49,10 @@ func (monH) Generate(property string, seed uint64, tier string) *Case {
 			started = true
 		case x < 45:
 			op.Kind = "lapse"
-		case x < 60:
+		case x < 57:
 			op.Kind = "delete_status"
+		case x < 64:
+			op.Kind = "revive"
 		case x < 80:
 			op.Kind, op.Ms = "wait", 500+g.IntN(30000)
 		default:
@@ -87,15 +89,10 @@ func (monH) Execute(c *Case, res *Result) {
 			return
 		}
 		agentStop := map[string]context.CancelFunc{}
-		for k, n := range cfg.Nodes {
-			if err := w.addNode(ctx, n); err != nil {
-				res.Harness = "setup: " + err.Error()
-				return
-			}
-			// the node's agent: re-reports the node as alive well inside its TTL
+		// the node's agent: re-reports the node as alive well inside its TTL
+		startAgent := func(n cluNode, k int) {
 			actx, stop := context.WithCancel(ctx)
 			agentStop[n.Name] = stop
-			n, k := n, k
 			go func() {
 				for {
 					select {
@@ -110,7 +107,15 @@ func (monH) Execute(c *Case, res *Result) {
 				}
 			}()
 		}
+		for k, n := range cfg.Nodes {
+			if err := w.addNode(ctx, n); err != nil {
+				res.Harness = "setup: " + err.Error()
+				return
+			}
+			startAgent(n, k)
+		}
 		reported := map[string]*coretypes.StatusMeta{}
+		nodeWLs := map[string][]string{}
 		create := func(node string) {
 			op := cluOp{App: "app", Entry: "main", Strategy: "AUTO", Count: 1 + int(sim.Gen.Uint64()%2), Includes: nil, Req: resReq{MemReq: 64 * mib}}
 			o := w.deployOpts(op)
@@ -125,6 +130,7 @@ func (monH) Execute(c *Case, res *Result) {
 					// running, and healthy or not yet (health check pending)
 					sm := &coretypes.StatusMeta{ID: m.WorkloadID, Running: true, Healthy: sim.Gen.Uint64()%3 != 0}
 					reported[m.WorkloadID] = sm
+					nodeWLs[node] = append(nodeWLs[node], m.WorkloadID)
 					metas = append(metas, sm)
 				}
 			}
@@ -168,6 +174,34 @@ func (monH) Execute(c *Case, res *Result) {
 					_ = w.core.cal.SetNodeStatus(ctx, node.Name, -1)
 					dead[node.Name] = time.Now()
 					res.Probes["status_deleted"]++
+				}
+			case "revive":
+				// the machine comes back: heartbeats resume and its agent reports the workloads
+				// as running again; it may lapse a second time later
+				if at, ok := dead[node.Name]; ok && watcherStarted {
+					if d := time.Until(at); d > 0 {
+						time.Sleep(d)
+					}
+					time.Sleep(3*time.Minute + offGrid(2)) // (the first lapse is judged by then)
+					sim.Settle()
+					for _, id := range nodeWLs[node.Name] {
+						if sm, err := w.core.cal.GetStore().GetWorkloadStatus(ctx, id); err == nil && sm != nil && (sm.Running || sm.Healthy) {
+							w.viol("C28", "still-reported-up", "lapse-before-revival", fmt.Sprintf("node %s lost its heartbeat, three minutes later its workload %s is still reported running=%v healthy=%v", node.Name, shortID(id), sm.Running, sm.Healthy))
+						}
+					}
+					_ = w.core.cal.SetNodeStatus(ctx, node.Name, node.HBTTL)
+					startAgent(node, op.Node%len(cfg.Nodes))
+					var metas []*coretypes.StatusMeta
+					for _, id := range nodeWLs[node.Name] {
+						if sm := reported[id]; sm != nil {
+							metas = append(metas, sm)
+						}
+					}
+					if len(metas) > 0 {
+						_, _ = w.core.cal.SetWorkloadsStatus(ctx, metas, nil)
+					}
+					delete(dead, node.Name)
+					res.Probes["node_revived"]++
 				}
 			case "wait":
 				time.Sleep(time.Duration(op.Ms)*time.Millisecond + offGrid(1))
